@@ -277,6 +277,21 @@ fn random_grammar(rng: &mut Rng, name: &str) -> (String, Vec<&'static str>) {
             items.push(sym("ent_stmt"));
         }
     }
+    // a field list that contains the expression rule (a SUPERTYPE in a third of the grammars) next to ANONYMOUS
+    // literals whose text equals the name of one of its (named) subtypes: `type: choice($._expr, "number", …)`
+    if rng.chance(1, 2) {
+        feats.push("literal-named-like-subtype");
+        let mut members = vec![e()];
+        let sub_names: Vec<String> = alts.iter().filter_map(|a| a["name"].as_str().map(|x| x.to_string())).collect();
+        for _ in 0..rng.range(1, 2) { let n = rng.pick(&sub_names).clone(); if !members.iter().any(|m| m["value"].as_str() == Some(n.as_str())) { members.push(lit(&n)); } }
+        let body = match rng.below(3) {
+            0 => field("type", choice(members)),
+            1 => seq(vec![field("type", choice(members.clone())), opt(seq(vec![lit("|"), field("type", choice(members))]))]),
+            _ => choice(vec![field("type", members[0].clone()), field("kind", choice(members[1..].to_vec()))]),
+        };
+        rules.push(("ty_stmt".into(), seq(vec![lit("ty"), body, lit(";")])));
+        items.push(sym("ty_stmt"));
+    }
     rules.push((expr_name.into(), choice(alts)));
     if expr_mode == 0 { supertypes.push(json!("_expr")); feats.push("supertype"); }
     let item_super = rng.chance(1, 3);
